@@ -616,3 +616,56 @@ func Verif_C14_HRandField() {
 	c14Holds(s, k, p, "C14.hrandfield.unchanged")
 	vr.Reach("end")
 }
+
+// Verif_C14_HSetTwoPairs: HSET / HSETNX with two field/value pairs whose fields may be the same one
+// (for HSET; the later value wins), on a missing key or an existing hash: the
+// hash afterwards is the reference map, and the count replied is a count of fields (new ones, or the
+// fields of the resulting hash — the repository's tests pin the latter), never of argument pairs.
+func Verif_C14_HSetTwoPairs() {
+	s := verifServer()
+	k := vr.Tok("k")
+	p := c14Preset(s, k, "h", 2)
+	if p.kind == kOther {
+		vr.Reach("end")
+		return
+	}
+	nx := vr.Choose("nx", 2) == 1
+	cmd := "HSET"
+	if nx {
+		cmd = "HSETNX"
+	}
+	f1, f2 := vr.Tok("f1"), vr.Tok("f2")
+	v1, v2 := vr.Tok("v1"), vr.Tok("v2")
+	if nx {
+		vr.Assume(f1 != f2) // HSETNX naming one field twice: which value wins is outside the claim
+	}
+	reply, err, panicked := verifRun(s, cmd, k, f1, v1, f2, v2)
+	vr.Assert(!panicked, "C14.hset2.nopanic")
+	if panicked {
+		return
+	}
+	post := c14Pre{kind: kHash, fields: append([]c14Field{}, p.fields...)}
+	added := 0
+	for _, in := range []c14Field{{name: f1, kind: hvStr, s: v1}, {name: f2, kind: hvStr, s: v2}} {
+		idx := -1
+		for i, g := range post.fields {
+			if g.name == in.name {
+				idx = i
+			}
+		}
+		switch {
+		case idx < 0:
+			post.fields = append(post.fields, in)
+			added++
+		case !nx:
+			post.fields[idx] = in
+		}
+	}
+	vr.Assert(err == nil, "C14.hset2.noerror")
+	if err == nil {
+		r := vr.Decode(reply)
+		vr.Assert(r.OK && r.Kind == ':' && (r.Int == int64(added) || r.Int == int64(len(post.fields))), "C14.hset2.reply_counts_fields")
+	}
+	c14Holds(s, k, post, "C14.hset2.post")
+	vr.Reach("end")
+}
